@@ -320,6 +320,10 @@ class _ListDict_(object):
         if self.weighted:
             weight = self.weight.pop(choice)
             self._total_weight -= weight
+            if len(self.items) == 0:
+                #an emptied list weighs exactly 0: the rounding residue
+                #of repeated += and -= must not leave total_weight()>0
+                self._total_weight = 0
             if weight == self.max_weight:  
                 #if we find ourselves in this case often
                 #it may be better just to let max_weight be the
